@@ -321,9 +321,8 @@ theorem viewForest_ec : ∀ (f : Forest) (c : Cursor) (b : Bool), wnForest b f =
     have ih2 := viewForest_ec (.cons t' rest) (viewTree .fixed t c).2 b h.2
     rw [show leavesForest (.cons t (.cons t' rest)) = leavesTree t ++ leavesForest (.cons t' rest) from rfl,
       flatEC_append, ← ih1, ← ih2]
-    have hne := wnForest_views_ne .fixed b (.cons t' rest) (viewTree .fixed t c).2 h.2
-    have : (viewForest .fixed (.cons t' rest) (viewTree .fixed t c).2).1.isEmpty = false := by
-      cases hh : (viewForest .fixed (.cons t' rest) (viewTree .fixed t c).2).1 <;> simp_all
-    simp only [viewForest, ecSum, this]
+    simp only [viewForest, ecSum]
     ext <;> simp <;> omega
 end
+
+end MythVerif.DagRec
